@@ -239,3 +239,88 @@ def finding_batched_fft_size(w, seed, spec):
         if r:
             fails.append(r)
     return fails
+
+
+def conformance(w, seed, spec):
+    """bounded conformance of the dependency contracts of theories/elem.py against the real jax/numpy on small
+    arguments (never counted as proof; run by hand: echo '{"name":"conformance"}' | /venv/bin/python oracles/run.py C09)"""
+    from jax import lax
+    fails = []
+    rng = np.random.default_rng(seed)
+
+    def eq(a, b, what):
+        a, b = np.asarray(a, dtype=np.float64), np.asarray(b, dtype=np.float64)
+        if a.shape != b.shape or not np.allclose(a, b, atol=1e-4):
+            fails.append(f'{what}: {a.tolist()} != {b.tolist()}')
+    for x64 in (False, True):
+        _set_x64(x64)
+        if jnp.zeros(3).dtype != (np.float64 if x64 else np.float32):
+            fails.append(f'zeros default dtype with x64={x64}: {jnp.zeros(3).dtype}')
+        import warnings
+        with warnings.catch_warnings():
+            warnings.simplefilter('ignore')
+            z64 = jnp.zeros(3, dtype=np.float64).dtype
+        if z64 != (np.float64 if x64 else np.float32):
+            fails.append(f'zeros(float64) canonicalisation with x64={x64}')
+        for n in range(1, 6):
+            a = rng.integers(-3, 4, n).astype(np.float32)
+            ja = jnp.asarray(a)
+            for p, q in itertools.product(range(3), repeat=2):
+                eq(jnp.pad(ja, (p, q)), [a[i - p] if p <= i < p + n else 0 for i in range(p + n + q)], 'pad')
+            for lo, hi in itertools.product([None] + list(range(-n - 1, n + 2)), repeat=2):
+                eq(ja[lo:hi], a[lo:hi], 'slice')
+                eq(ja[lo:hi:-1], a[lo:hi:-1], 'reversed slice')
+            eq(jnp.concatenate((ja[-1:0:-1], ja)), list(a[:0:-1]) + list(a), 'kernel mirror')
+            for k in range(1, n + 1):
+                kk = rng.integers(-3, 4, k).astype(np.float32)
+                ref = [sum(kk[j] * a[p + k - 1 - j] for j in range(k)) for p in range(n - k + 1)]
+                eq(jnp.convolve(ja, jnp.asarray(kk), mode='valid'), ref, 'convolve valid')
+                for N in range(max(n, k), n + 3):
+                    if N != n:
+                        continue
+                    ref = [sum(kk[j] * a[(t - j) % N] for j in range(k)) for t in range(N)]
+                    eq(jnp.fft.ifft(jnp.fft.fft(ja) * jnp.fft.fft(jnp.asarray(kk), N)).real, ref, 'circular convolution')
+                    if jnp.fft.ifft(jnp.fft.fft(ja) * jnp.fft.fft(jnp.asarray(kk), N)).real.dtype != np.float32:
+                        fails.append('ifft(...).real dtype for float32 input')
+            for m in range(1, n + 1):
+                for s in range(-2, n + 2):
+                    cs = min(max(s + n if s < 0 else s, 0), n - m)
+                    eq(lax.dynamic_slice(ja, (s,), (m,)), a[cs:cs + m], 'dynamic_slice clamping')
+                    u = np.arange(1, m + 1, dtype=np.float32) * 10
+                    ref = a.copy()
+                    ref[cs:cs + m] = u
+                    eq(lax.dynamic_update_slice(ja, jnp.asarray(u), (s,)), ref, 'dynamic_update_slice clamping')
+            idx = np.arange(-n - 2, n + 3)
+            ref = a.copy()
+            for i in idx:
+                if -n <= i < n:
+                    ref[i] = 9
+            eq(ja.at[jnp.asarray(idx)].set(9.0), ref, '.at[].set with out-of-range indices')
+            eq(jnp.arange(n - 3), np.arange(max(n - 3, 0)), 'arange of a non-positive count')
+            M = rng.integers(-3, 4, (n, n)).astype(np.float32)
+            eq(jnp.asarray(M.ravel()).reshape(n, n), M, 'reshape row-major')
+            eq(jnp.asarray(M) @ ja, M.astype(np.float64) @ a, 'matvec')
+            eq(lax.fori_loop(0, n, lambda i, c: c.at[i].set(c[i] + i), jnp.zeros(n)), np.arange(n), 'fori_loop')
+        if x64:
+            try:
+                lax.dynamic_update_slice(jnp.zeros(4), jnp.ones(2, dtype=np.float32), (0,))
+                fails.append('dynamic_update_slice accepted different dtypes')
+            except TypeError:
+                pass
+    _set_x64(False)
+    for v in (0.2, 1.0, 2.5, 7.0 / 3):
+        if np.ceil(v) != -(-v // 1) or np.floor(v) != v // 1:
+            fails.append('ceil/floor')
+    for b in range(1, 70):
+        if 2 ** np.ceil(np.log2(b)) < b or 2 ** (np.ceil(np.log2(b)) - 1) >= b and b > 1:
+            fails.append(f'log2/ceil/pow2 inequalities at {b}')
+    f = jnp.vectorize(lambda a, k: a * k.sum(), signature='(n),(k)->(n)')
+    a = np.arange(12.0).reshape(2, 3, 2)
+    k = np.arange(1.0, 10).reshape(3, 3)
+    eq(f(jnp.asarray(a), jnp.asarray(k)), a * k.sum(-1)[None, :, None], 'vectorize broadcasting per batch row')
+    import jax.scipy.linalg as jsl
+    blocks = np.arange(8.0).reshape(2, 2, 2)
+    ref = np.zeros((4, 4))
+    ref[:2, :2], ref[2:, 2:] = blocks[0], blocks[1]
+    eq(jsl.block_diag(*jnp.asarray(blocks)), ref, 'block_diag order')
+    return fails[:12]
